@@ -18,6 +18,7 @@ CONSTANTS
   MaxNet = 0
   W = {}
   MayTimeout = {a, b, c}
+  MayLink = {}
   Gen = TRUE
   OutDir = "OUTDIR"
 SPECIFICATION GSpec
